@@ -157,6 +157,124 @@ def install(w):
         return prev_binop(it, op, a, b, node)
     w.binop_ext = binop_ext
 
+    # ---- getattr(obj, f"prefix{name}", None) on an object of an open class (any subclass) ----------
+    import ast as _ast
+    from .sym import ValS, I as _I, ArrS as _ArrS, VDyn as _VDyn, VTuple as _VTuple
+    VATTR = z3.Function("vattr", _I, _I, _ArrS, _I, ValS)
+
+    def vattr_term(it, obj, prefix, suffix):
+        if isinstance(obj, VObj):
+            oid = z3.IntVal(obj.oid)
+        else:
+            raise Unsupported("vattr of a non-object")
+        if suffix is None:
+            arr, n = z3.K(_I, z3.IntVal(0)), z3.IntVal(0)
+        else:
+            vv = sym_as_view(suffix)
+            if not z3.eq(z3.simplify(vv.lo), z3.IntVal(0)):
+                raise Unsupported("vattr with a string slice")
+            arr, n = vv.arr, vv.hi
+        from .sym import ATOMS
+        return _VDyn(VATTR(oid, z3.IntVal(ATOMS.code("attrprefix:" + prefix)), arr, n))
+
+    prev_getattr_dyn = w.getattr_dyn
+
+    def getattr_dyn(it, obj, name, default, node):
+        if isinstance(obj, VObj) and isinstance(node, _ast.Call) and len(node.args) == 3 \
+                and isinstance(default, VAtom) and z3.eq(z3.simplify(default.t), z3.IntVal(0)):
+            nm = node.args[1]
+            w.trusted_used.add("getattr(obj, name, None) on an object of an open class: a function "
+                               "of (object, name); a missing attribute and None are not told apart")
+            if isinstance(nm, _ast.JoinedStr) and len(nm.values) == 2 \
+                    and isinstance(nm.values[0], _ast.Constant) \
+                    and isinstance(nm.values[1], _ast.FormattedValue) \
+                    and nm.values[1].format_spec is None and nm.values[1].conversion == -1:
+                suffix = it.ev(nm.values[1].value)
+                if isinstance(suffix, VStr):
+                    return vattr_term(it, obj, nm.values[0].value, suffix)
+            if isinstance(nm, _ast.Constant) and isinstance(nm.value, str):
+                return vattr_term(it, obj, nm.value, None)
+        return prev_getattr_dyn(it, obj, name, default, node)
+    w.getattr_dyn = getattr_dyn
+
+    def f_vattr(it, obj, prefix, suffix):
+        if not (isinstance(prefix, VStr) and prefix.lit is not None):
+            raise Unsupported("vattr: literal prefix expected")
+        if isinstance(suffix, VStr) and suffix.lit == "":
+            suffix = None
+        return vattr_term(it, obj, prefix.lit, suffix)
+    w.spec_funcs["vattr"] = f_vattr
+    w.spec_funcs["ite_val"] = lambda it, c, a, b: _VDyn(z3.If(
+        it.truth(c), w.to_dyn(it, a).t, w.to_dyn(it, b).t))
+
+    # ---- ("absmap", value spec): a dict whose contents are not tracked ------------------------------
+    prev_fresh2 = w.fresh_ext
+
+    def fresh_ext2(it, spec, label):
+        if isinstance(spec, tuple) and spec and spec[0] == "absmap":
+            v = VOpaque(label)
+            v.absmap = spec[1]
+            return v
+        return prev_fresh2(it, spec, label) if prev_fresh2 else None
+    w.fresh_ext = fresh_ext2
+
+    prev_index2 = w.index_ext
+
+    def index_ext2(it, v, idx, node):
+        if isinstance(v, VOpaque) and hasattr(v, "absmap"):
+            w.trusted_used.add("a cache dict whose contents are not tracked: a lookup raises KeyError "
+                               "or gives some value of the declared kind")
+            text = _src(node)
+            it.note_safe("SAFE-Key", text, getattr(node, "lineno", 0))
+            if it.choose(2, "absmap lookup") == 1:
+                it.throw(KeyError, node, "SAFE-Key", text)
+            return it.fresh(v.absmap, "cached")
+        return prev_index2(it, v, idx, node)
+    w.index_ext = index_ext2
+
+    prev_setitem = w.setitem_ext
+
+    def setitem_ext(it, obj, key, v, node):
+        if isinstance(obj, VOpaque) and hasattr(obj, "absmap"):
+            return True
+        r = prev_setitem(it, obj, key, v, node)
+        if not r and isinstance(obj, _VDyn):
+            w.trusted_used.add("item store into a value whose contents are not tracked: no effect "
+                               "on the model, assumed not to raise")
+            return True
+        return r
+    w.setitem_ext = setitem_ext
+
+    # ---- with contextlib.suppress(E, ...): body --------------------------------------------------
+    import contextlib
+    from .interp import _Raise as _RaiseSig
+    prev_with = w.with_ext
+
+    def with_ext(it, node):
+        if len(node.items) == 1 and node.items[0].optional_vars is None:
+            cm = it.ev(node.items[0].context_expr)
+            if isinstance(cm, VConst) and isinstance(cm.obj, contextlib.suppress):
+                w.trusted_used.add("with contextlib.suppress(E): the body; an exception of class E "
+                                   "raised in it is swallowed")
+                excs = tuple(cm.obj._exceptions)
+                try:
+                    it.exec_block(node.body)
+                except _RaiseSig as r:
+                    if issubclass(r.exc.cls, excs):
+                        return True
+                    if not r.exc.exact and any(issubclass(e, r.exc.cls) for e in excs):
+                        if it.choose(2, "suppressed subclass") == 0:
+                            return True
+                    raise
+                return True
+        return prev_with(it, node)
+    w.with_ext = with_ext
+
+    def b_exc_info(it, f, args, kw, node):
+        w.trusted_used.add("sys.exc_info(): a 3-tuple of unknown values")
+        return _VTuple([it.fresh_dyn("exc_type"), it.fresh_dyn("exc_value"), it.fresh_dyn("exc_tb")])
+    w.builtins["py:exc_info"] = b_exc_info
+
     def int_bit_length(it, f, args, kw, node):
         from .sym import VInt
         n = it.as_int(f.recv, node)
